@@ -57,6 +57,32 @@ Proof.
     eexists; eexists; eexists. rewrite <- !app_assoc. reflexivity.
 Qed.
 
+Lemma take_slice_all : forall (m : bytes) off k, 0 <= off -> off + k = Zlen m -> ztake off m ++ slice m off k = m.
+Proof.
+  intros m off k H0 H1. unfold slice, ztake, zdrop.
+  rewrite (firstn_all2 (skipn (Z.to_nat off) m)).
+  - apply firstn_skipn.
+  - rewrite skipn_length. unfold Zlen in H1. lia.
+Qed.
+
+(* the PSK branch of _server_handle_hello: when it accepts, the state is otherwise untouched, the schedule is the
+   negotiated suite's, resumed, and its transcript is the WHOLE hello (the two binder-split pieces re-assemble) *)
+Lemma server_select_psk_spec : forall c s2 v m suite kex x,
+  server_select_psk O c s2 v m suite kex = POk (Some x) ->
+  t_state x = t_state s2 /\ k_tr (the_ks x) = m /\ k_suite (the_ks x) = suite /\ t_resumed x = true.
+Proof.
+  intros c s2 v m suite kex x H. unfold server_select_psk in H.
+  repeat match type of H with
+  | context [match ?y with _ => _ end] => destruct y eqn:?
+  end; try discriminate; inversion H; subst x; clear H;
+  repeat match goal with |- context [dsize ?z] => let b := fresh "bl" in set (b := dsize z) in * end;
+  cbv beta iota zeta delta [the_ks log_key set_ks t_ks t_state t_resumed k_tr k_suite ks_update ks_extract ks_new].
+  all: split; [reflexivity |]; split; [| split; reflexivity].
+  all: rewrite ?app_nil_l, <- ?app_assoc.
+  all: match goal with E : (?off <? 0) = false |- _ => apply Z.ltb_ge in E; apply take_slice_all; [exact E |] end.
+  all: match goal with b := dsize _ |- ?o + ?k = _ => change k with (3 + b); subst b; lia end.
+Qed.
+
 Lemma server_hello_spec : forall c s m s' out,
   server_handle_hello O c s m = (OOk, s', out) ->
   exists kF eS cS finm keys0,
@@ -353,10 +379,7 @@ Proof.
   destruct (negb (code =? 0)); [inversion H; left; reflexivity |].
   apply with_parse_inv in H. destruct H as [(pskst & Hpsk & H) | [-> _]]; [| left; reflexivity].
   assert (S5 : forall x, pskst = Some x -> t_state x = t_state s).
-  { intros x Hx. subst pskst.
-    repeat match type of Hpsk with
-    | context [match ?y with _ => _ end] => destruct y eqn:?
-    end; try discriminate; inversion Hpsk; reflexivity. }
+  { intros x Hx. subst pskst. apply server_select_psk_spec in Hpsk. destruct Hpsk as [A _]. exact A. }
   apply with_parse_inv in H. destruct H as [(kx & _ & H) | [-> _]].
   - destruct kx as [[[g pubk] shared] |].
     + apply server_flight_states in H. destruct H as [H | H]; [left | right; exact H].
